@@ -126,6 +126,19 @@ class Repo:
         for mi in self.modules.values():
             self._index(mi)
 
+    def load_extra(self, path: str, modname: str) -> ModuleInfo:
+        """parse a file that is not part of the package (e.g. the reference definitions) and index it as a module"""
+        if modname in self.modules:
+            return self.modules[modname]
+        src = open(path, encoding="utf-8").read()
+        tree = ast.parse(src, filename=path)
+        mi = ModuleInfo(modname, path, os.path.relpath(path, os.path.dirname(os.path.dirname(os.path.abspath(__file__)))), tree, src)
+        mi.is_pkg = False
+        mi.extra = True
+        self.modules[modname] = mi
+        self._index(mi)
+        return mi
+
     def _abs_module(self, mi: ModuleInfo, level: int, module: Optional[str]) -> str:
         if level == 0:
             return module or ""
@@ -335,6 +348,8 @@ class Repo:
     def all_functions(self) -> List[FuncInfo]:
         out = []
         for mi in self.modules.values():
+            if getattr(mi, "extra", False):
+                continue
             out.extend(mi.functions.values())
             for ci in mi.classes.values():
                 out.extend(ci.methods.values())
